@@ -355,5 +355,25 @@ def Norm.inverse (n : Norm R) (value : List R) : Except Err (List R) := do
   let (lo, hi) ← n.interval.getLimits (vs.map Ext.fin)
   pure (vs.map (intervalInverse lo hi))
 
+/-! ### visualization.py callers -/
+
+/-- `_show_2d_array`: `_resolve_normalization(norm, **kwargs)`, then every field handed to
+`CustomNormalization(..., data=amplitude)`, then `norm_obj(amplitude)` -/
+def showArray (norm : NormArg R) (kw : List (String × KwVal R)) (isBool : Bool) (data : List (Ext R)) :
+    Except Err (Norm R × List (Option R)) := do
+  let c ← resolve norm kw
+  let n ← Norm.create c (some (isBool, data))
+  let out ← n.call data
+  pure (n, out)
+
+/-- `_show_2d_combined`: the resolved fields handed to `CustomNormalization(...)` WITHOUT data,
+then `list_of_arrays_to_rgba` applies the object to every array (limits recomputed per array) -/
+def showCombined (norm : NormArg R) (kw : List (String × KwVal R)) (arrays : List (List (Ext R))) :
+    Except Err (Norm R × List (List (Option R))) := do
+  let c ← resolve norm kw
+  let n ← Norm.init c
+  let outs ← arrays.mapM n.call
+  pure (n, outs)
+
 end
 end QuantemModel.Norm
